@@ -25,7 +25,7 @@ from typing import Any
 import attrs
 from path import Path
 
-from .enums import FileState, HashUpdateCause, StepState
+from .enums import FILE_STATES_BY_ROLE, FileRole, FileState, HashUpdateCause, StepState
 from .exceptions import HashCancelledError
 from .file import File
 from .hash import (
@@ -876,17 +876,31 @@ class Executor:
         """Make a step pending again when it was declared anew while its command ran.
 
         Such a step kept its row and its command (see `Step.initialize_row`),
-        but the verdict of that command says nothing about the new declaration:
-        the step goes back to pending without a hash and runs again.
+        but the verdict of that command says nothing about the new declaration,
+        even when the new one reads like the old one: what the command amended is gone.
+        The step goes back to pending without a hash and runs again.
+        What the command was declared to write is hashed and recorded first, as after a failed
+        command, so that an output the new declaration no longer has can be removed safely.
 
         Returns
         -------
         restarted
-            Whether the declaration had changed and the step was made pending.
+            Whether the step was declared again and has been made pending.
         """
         async with self.db:
-            if run.launched_decl == self._declaration(run.step):
+            declared_again = run.step.i in self.workflow.declared_again
+            if not declared_again and run.launched_decl == self._declaration(run.step):
                 return False
+            out_hashes = {}
+            for path in run.launched_decl[2]:
+                file = self.workflow.find(File, path)
+                if file is not None and file.get_state() in FILE_STATES_BY_ROLE[FileRole.OUTPUT]:
+                    out_hashes[path] = file.get_hash()
+        result = await self._run_work_thread(run, functools.partial(compute_out_hashes, out_hashes))
+        async with self.db:
+            if result is not None:
+                self.workflow.update_file_hashes(result.new_hashes, cause=HashUpdateCause.FAILED)
+            self.workflow.declared_again.discard(run.step.i)
             run.step.delete_hash()
             run.step.set_state(StepState.PENDING)
             return True
